@@ -152,6 +152,7 @@ class Conn(object):
         self.owners = []      # weakrefs to socket objects owning the descriptor
         self.delivered = 0    # bytes handed to the library
         self.rcvlowat = 1
+        self.arrivals = 0     # number of arrivals (data/EOF/error) so far: an edge-triggered selector reports each only once
         self.reset = False    # the connection was reset (a read/write failed with ECONNRESET/EPIPE): shutdown() answers ENOTCONN
 
     def buffered(self):
@@ -460,6 +461,44 @@ class _FakePoll(object):
         return [(fd, got)] if got else []
 
 
+class _FakeEpoll(object):
+    """epoll with its two modes: level-triggered like poll(); with EPOLLET a readiness is reported once per arrival."""
+
+    def __init__(self):
+        self.registered = {}
+        self.seen = {}
+        self.closed = False
+        current().selectors.append(self)
+
+    def register(self, fd, eventmask=None):
+        self.registered[fd] = eventmask
+        self.seen[fd] = -1
+
+    def unregister(self, fd):
+        del self.registered[fd]
+
+    def fileno(self):
+        return 99
+
+    def poll(self, timeout=None, maxevents=-1):
+        import select as real
+        if self.closed:
+            raise ValueError('I/O operation on closed epoll object')
+        (fd, mask), = self.registered.items()
+        conn = _fd_conn(fd)
+        if timeout is not None and timeout < 0:
+            timeout = None
+        et = bool(mask is not None and mask & getattr(real, 'EPOLLET', 1 << 31))
+        edge = et and self.seen[fd] == conn.arrivals
+        if not current().wait_readable(_ConnRef(conn), timeout, edge=edge):
+            return []
+        self.seen[fd] = conn.arrivals
+        return [(fd, _readiness_mask(conn))]
+
+    def close(self):
+        self.closed = True
+
+
 class _FakeKqueue(object):
     def __init__(self):
         self.closed = False
@@ -499,6 +538,9 @@ class FakeSelectModule(types.ModuleType):
     def kqueue(self):
         return _FakeKqueue()
 
+    def epoll(self, *a, **k):
+        return _FakeEpoll()
+
     def kevent(self, *a, **k):
         return _FakeKevent(*a, **k)
 
@@ -508,6 +550,7 @@ class FakeSelectModule(types.ModuleType):
 
 
 _TRACKED = {}
+PLATFORM_SELECTOR = [None]
 
 
 class SelectorDispatch(object):
@@ -519,7 +562,9 @@ class SelectorDispatch(object):
         kind = getattr(w, 'selector_kind', 'fake')
         if kind == 'fake':
             return FakeSelector(sock)
-        real = {'poll': L_selectors.PollSelector, 'select': L_selectors.SelectSelector, 'kqueue': L_selectors.KQueueSelector}[kind]
+        # 'platform': whatever class the library itself picked for this platform when it was imported
+        real = {'poll': L_selectors.PollSelector, 'select': L_selectors.SelectSelector, 'kqueue': L_selectors.KQueueSelector,
+                'platform': PLATFORM_SELECTOR[0]}[kind]
         tracked = _TRACKED.get(real)
         if tracked is None:
             def close(self, _real=real):
@@ -763,6 +808,7 @@ def install():
     L_persist.random = _persist_random
     if hasattr(L_session, 'HAS_SNI'):
         L_session.HAS_SNI = True
+    PLATFORM_SELECTOR[0] = L_session.WebsocketSession._selector_cls
     L_session.WebsocketSession._selector_cls = SelectorDispatch
     L_selectors.select = FakeSelectModule()
     L_opcode.Opcode.to_str(0)   # populate the lazy cache once so it never shows up as a state change
@@ -965,6 +1011,7 @@ class World(object):
         pass
 
     def _arrive(self, conn, step):
+        conn.arrivals += 1
         if isinstance(step, Data):
             d = step.data
             if callable(d):
@@ -994,7 +1041,9 @@ class World(object):
             conn.pending = [step, 0 if isinstance(step, Silence) else (step.delay or 0)]
         return conn.pending
 
-    def wait_readable(self, sock, timeout):
+    def wait_readable(self, sock, timeout, edge=False):
+        """edge=True: the caller has already been told about everything that has arrived (edge-triggered epoll); only a *new*
+        arrival wakes it, however many bytes are still queued."""
         conn = sock.conn
         self.waits += 1
         if self.waits > self.max_waits:
@@ -1006,7 +1055,7 @@ class World(object):
         # do not make the descriptor readable -- that is what SelectorBase.wait's pending() short-cut is for
         kernel_bytes = sum(len(x) for x in conn.inbox if isinstance(x, bytes))
         ready = any(not isinstance(x, bytes) for x in conn.inbox) or kernel_bytes >= conn.rcvlowat
-        if conn.closed or ready or conn.eof or conn.err is not None:
+        if conn.closed or ((ready or conn.eof or conn.err is not None) and not edge):
             self.wait_log.append((t0, timeout, True, before, len(self.events)))
             return True
         step, remaining = self._next_step(conn)
